@@ -860,20 +860,16 @@ def adopt_foundations(ctx: Context, rule: str, groups: list[str], floor: int = 1
 def on_cells_only(ctx, fi, flow, ravel_call, rule: str, what: str, conv: str = 'self') -> None:
     """The variable flattened by `ravel_call` is known to lie on the default grid (the cells): a comparison of
     self.get_grid_kind(<that variable>) with self.default_grid_kind dominates the call and a mismatch raises."""
-    g = guards(fi, ravel_call)
-    ok, why = False, f"guards before ravel: {g}"
-    for text, pol in g:
-        for a, b in ((f' != {conv}.default_grid_kind', False), (f' == {conv}.default_grid_kind', True)):
-            if text.endswith(a) and pol is b:
-                kind_name = text[:-len(a)]
-                # what the compared kind is the kind of
-                for n in walk_no_nested(fi.node):
-                    if isinstance(n, ast.Assign) and isinstance(n.targets[0], ast.Name) and n.targets[0].id == kind_name and isinstance(n.value, ast.Call) \
-                            and isinstance(n.value.func, ast.Attribute) and n.value.func.attr == 'get_grid_kind' and norm_text(n.value.func.value) == conv \
-                            and len(n.value.args) == 1 and flow.canon(n.value.args[0]) == flow.canon(ravel_call.args[0]):
-                        ok, why = True, f"{kind_name} = {norm_text(n.value)} compared with {conv}.default_grid_kind before ravel"
-                if text.startswith(f'{conv}.get_grid_kind(') and ravel_call.args and norm_text(ravel_call.args[0]) in text:
-                    ok, why = True, text
+    fs = facts(ctx, fi, ravel_call)
+    ok, why = False, f"known before ravel: {sorted(fs)[:4]}"
+    arg = norm_text(expand_locals(flow, ravel_call.args[0])) if ravel_call.args else '?'
+    for text, pol in fs:
+        if not pol:
+            continue
+        for form in (f"{conv}.get_grid_kind({arg}) == {conv}.default_grid_kind", f"{conv}.default_grid_kind == {conv}.get_grid_kind({arg})",
+                     f"{conv}.get_grid_kind({arg}) is {conv}.default_grid_kind"):
+            if text == form:
+                ok, why = True, text
     ctx.check(rule, ok, f"{what}: a variable on another grid (nodes, edges) is refused before it is flattened - flattened over its own grid and paired with the "
               "cells by position it would silently give cell n the value of node n whenever the two grids have the same size", fi, ravel_call, construct=why)
 
